@@ -738,29 +738,29 @@ def i64_eqz : Template := ⟨[.mov (.reg .rax .q) (.slot 3 .q),
 /- i64.clz:
      mov   rax, qword ptr [rbp-24]
      lzcnt rax, rax
-     mov   dword ptr [rbp-24], rax
+     mov   qword ptr [rbp-24], rax
 -/
 def i64_clz : Template := ⟨[.mov (.reg .rax .q) (.slot 3 .q),
     .lzcnt (.reg .rax .q) (.reg .rax .q),
-    .mov (.slot 3 .d) (.reg .rax .q)],
+    .mov (.slot 3 .q) (.reg .rax .q)],
     3, 0⟩    -- code, x slot, y slot
 /- i64.ctz:
      mov   rax, qword ptr [rbp-24]
      tzcnt rax, rax
-     mov   dword ptr [rbp-24], rax
+     mov   qword ptr [rbp-24], rax
 -/
 def i64_ctz : Template := ⟨[.mov (.reg .rax .q) (.slot 3 .q),
     .tzcnt (.reg .rax .q) (.reg .rax .q),
-    .mov (.slot 3 .d) (.reg .rax .q)],
+    .mov (.slot 3 .q) (.reg .rax .q)],
     3, 0⟩    -- code, x slot, y slot
 /- i64.popcnt:
      mov    rax, qword ptr [rbp-24]
      popcnt rax, rax
-     mov    dword ptr [rbp-24], rax
+     mov    qword ptr [rbp-24], rax
 -/
 def i64_popcnt : Template := ⟨[.mov (.reg .rax .q) (.slot 3 .q),
     .popcnt (.reg .rax .q) (.reg .rax .q),
-    .mov (.slot 3 .d) (.reg .rax .q)],
+    .mov (.slot 3 .q) (.reg .rax .q)],
     3, 0⟩    -- code, x slot, y slot
 /- i32.wrap_i64:
      mov rax, qword ptr [rbp-24]
